@@ -333,11 +333,12 @@ pub fn lines_real(spec: &NodeSpec, passes: &[Size<AvailableSpace>]) -> Result<(S
 ///   part A, idx < CHAINS_A: all 3^d mixes of container KINDS (default styles 0 / 3 / 6) for depth d = 1..6 (3 + 9 + .. + 729 = 1092),
 ///           digit j of the mix (base 3, 0 flex / 1 grid / 2 block) = the kind of the container j levels above the leaf;
 ///           default leaf, max-content available space
-///   part B, idx = CHAINS_A + 6 * typ + (depth - 1): the chain of C16's typical corpus number `typ` (0..6560: period-3 style mix (a,b,c),
-///           3 leaves, 3 available spaces: exactly `vh c16 typical`'s, corpus/C16-typical-baseline.json's index) cut at depth 1..6
+///   part B, idx = CHAINS_A + DEPTHS_B * typ + (depth - 1): the chain of C16's typical corpus number `typ` (0..6560: period-3 style mix (a,b,c),
+///           3 leaves, 3 available spaces: exactly `vh c16 typical`'s, corpus/C16-typical-baseline.json's index) cut at depth 1..DEPTHS_B
 pub const CHAINS_A: u64 = 1092;
 pub const CHAINS_TYP: u64 = 6561;
-pub const CHAIN_QUERY_LIMIT: u64 = 20000;
+pub const CHAIN_QUERY_LIMIT: u64 = 4000;
+pub const DEPTHS_B: u64 = 16;
 
 pub fn tchain(idx: u64) -> (NodeSpec, Vec<Size<AvailableSpace>>, String) {
     let styles = crate::c15::typical_styles();
@@ -362,7 +363,7 @@ pub fn tchain(idx: u64) -> (NodeSpec, Vec<Size<AvailableSpace>>, String) {
         (node, vec![Size::MAX_CONTENT], format!("A depth {} root>{}>leaf", depth, desc.join(">")))
     } else {
         let j = idx - CHAINS_A;
-        let (typ, depth) = (j / 6, (j % 6) as usize + 1);
+        let (typ, depth) = (j / DEPTHS_B, (j % DEPTHS_B) as usize + 1);
         let n = 9u64;
         let (a, b, c) = (typ % n, (typ / n) % n, (typ / (n * n)) % n);
         let which_leaf = (typ / (n * n * n)) % 3;
@@ -458,18 +459,18 @@ pub fn main(args: &[String]) {
             );
         }
         "chains" => {
-            // vh taffytree chains <start> <n> [step]: chains start, start+step, ..
-            let (start, n, step) = (num(1, 0), num(2, CHAINS_A), num(3, 1).max(1));
+            // vh taffytree chains <start> <n> [step] [query limit]: chains start, start+step, ..
+            let (start, n, step, limit) = (num(1, 0), num(2, CHAINS_A), num(3, 1).max(1), num(4, CHAIN_QUERY_LIMIT));
             let j = |v: &Vec<i64>| v.iter().map(|x| x.to_string()).collect::<Vec<_>>().join(" ");
             for k in 0..n {
                 let idx = start + k * step;
-                if idx >= CHAINS_A + 6 * CHAINS_TYP {
+                if idx >= CHAINS_A + DEPTHS_B * CHAINS_TYP {
                     break;
                 }
                 let (spec, passes, desc) = tchain(idx);
-                match lay_out_real(&spec, &passes, CHAIN_QUERY_LIMIT) {
+                match lay_out_real(&spec, &passes, limit) {
                     Ok((r, q)) => println!("C {}\nR {}\nQ {} {} {}", j(&enc_case(&spec, &passes)), j(&r), idx, q, desc),
-                    Err(_) => println!("SKIP {} {}", idx, CHAIN_QUERY_LIMIT),
+                    Err(_) => println!("SKIP {} {}", idx, limit),
                 }
             }
             println!("DONE");
